@@ -159,8 +159,8 @@ struct ArrTarget : Target {
 
     void gen_steps(Plan& p, Rng& r, const std::string& tier) override {
         // the first three operations apply to a dead slot (constructions), the others to a live object
-        std::vector<std::string> ops = {"ctor", "copy", "ctor_nested", "resize", "write", "read", "assign", "cast_kind", "cast_dtype", "assign_foreign", "destroy"};
-        std::vector<int> w = {4, 3, (Tr::family == LEGACY_HYBRID || Tr::family == LEGACY_DYNAMIC ? 3 : 0), 10, 8, 2, 4, 2, 2, (Tr::family == NDARRAY ? 0 : 3), 1};
+        std::vector<std::string> ops = {"ctor", "copy", "ctor_nested", "resize", "write", "read", "assign", "cast_kind", "cast_dtype", "assign_foreign", "destroy", "assign_nested"};
+        std::vector<int> w = {4, 3, (Tr::family == LEGACY_HYBRID || Tr::family == LEGACY_DYNAMIC ? 3 : 0), 10, 8, 2, 4, 2, 2, (Tr::family == NDARRAY ? 0 : 3), 1, (Tr::family == NDARRAY ? 0 : 3)};
         for (auto& x : w) if (r.chance(0.15)) x = 0;
         if (w[0] == 0) w[0] = 4;
         long nobj = 1 + (long)r.below(NOBJ); p.seti("nobj", nobj);
@@ -244,6 +244,23 @@ struct ArrTarget : Target {
         E a[N0][N1][N2]; std::vector<E> vals;
         { SimGuard g; for (size_t i = 0; i < N0; i++) for (size_t j = 0; j < N1; j++) for (size_t k = 0; k < N2; k++) { a[i][j][k] = val(env->next_value()); vals.push_back(a[i][j][k]); } }
         { Sut x; new (env->slots.at((size_t)o)) A(std::move(a)); } nested_model(o, Shape{N0, N1, N2}, vals);
+    }
+
+    template <long R> void assign_nested_rank(A& a, const Shape& sh, const E (&v)[24]) {
+        (void)a; (void)sh; (void)v;
+        if constexpr (R == 1) {
+        if (sh[0] == 3) { Sut x; a = {v[0], v[1], v[2]}; }
+        else if (sh[0] == 5) { Sut x; a = {v[0], v[1], v[2], v[3], v[4]}; }
+        else if (sh[0] == 8) { Sut x; a = {v[0], v[1], v[2], v[3], v[4], v[5], v[6], v[7]}; }
+        } else if constexpr (R == 2) {
+        if (sh[0] == 2 && sh[1] == 3) { Sut x; a = {{v[0], v[1], v[2]}, {v[3], v[4], v[5]}}; }
+        else if (sh[0] == 3 && sh[1] == 2) { Sut x; a = {{v[0], v[1]}, {v[2], v[3]}, {v[4], v[5]}}; }
+        else if (sh[0] == 3 && sh[1] == 4) { Sut x; a = {{v[0], v[1], v[2], v[3]}, {v[4], v[5], v[6], v[7]}, {v[8], v[9], v[10], v[11]}}; }
+        } else if constexpr (R == 3) {
+        if (sh[0] == 2 && sh[1] == 3 && sh[2] == 2) { Sut x; a = {{{v[0], v[1]}, {v[2], v[3]}, {v[4], v[5]}}, {{v[6], v[7]}, {v[8], v[9]}, {v[10], v[11]}}}; }
+        else if (sh[0] == 1 && sh[1] == 2 && sh[2] == 3) { Sut x; a = {{{v[0], v[1], v[2]}, {v[3], v[4], v[5]}}}; }
+        else if (sh[0] == 2 && sh[1] == 3 && sh[2] == 4) { Sut x; a = {{{v[0], v[1], v[2], v[3]}, {v[4], v[5], v[6], v[7]}, {v[8], v[9], v[10], v[11]}}, {{v[12], v[13], v[14], v[15]}, {v[16], v[17], v[18], v[19]}, {v[20], v[21], v[22], v[23]}}}; }
+        }
     }
 
     void after_construct(long o) {
@@ -348,6 +365,22 @@ struct ArrTarget : Target {
             if (q && model[o].val[flat] && std::memcmp(q, &*model[o].val[flat], sizeof(E)) != 0)
                 env->violation("CONTENT", std::string(Tr::name()) + " read" + shape_str(idx) + " differs from the last value written there");
             return true;
+        }
+        if (op == "assign_nested") {   // the legacy classes' assignment from a nested braced list of the object's own shape (operator=(initializer_list...) / (T(&&)[..]))
+            if constexpr (Tr::family == LEGACY_FIXED || Tr::family == LEGACY_HYBRID || Tr::family == LEGACY_DYNAMIC) {
+                const Shape sh = model[o].shape; size_t ne = prod(sh);
+                static const Shape menu[] = {{3}, {5}, {8}, {2, 3}, {3, 2}, {3, 4}, {2, 3, 2}, {1, 2, 3}, {2, 3, 4}};
+                bool offered = false; for (auto& m : menu) offered |= m == sh;
+                if (Tr::family == LEGACY_FIXED) offered = sh == Shape{2, 3, 2};
+                if (!offered) { probe("assign_nested.shape_not_in_menu"); return false; }
+                E v[24]; { SimGuard g; for (size_t i = 0; i < ne; i++) v[i] = val(env->next_value()); }
+                if constexpr (Tr::family == LEGACY_FIXED) { Sut x; a = {{{v[0], v[1]}, {v[2], v[3]}, {v[4], v[5]}}, {{v[6], v[7]}, {v[8], v[9]}, {v[10], v[11]}}}; }
+                else if constexpr (Tr::family == LEGACY_HYBRID) assign_nested_rank<Tr::fixed_rank>(a, sh, v);
+                else { if (sh.size() == 1) assign_nested_rank<1>(a, sh, v); else if (sh.size() == 2) assign_nested_rank<2>(a, sh, v); else assign_nested_rank<3>(a, sh, v); }
+                for (size_t i = 0; i < ne; i++) model[o].val[i] = v[i];
+                env->applied(op, on + " " + shape_str(sh), true); env->interesting = true;
+                return true;
+            } else return false;
         }
         if (op == "assign") {
             if (!live(src)) return false;
